@@ -6,7 +6,6 @@ Require Import ExtrOcamlBasic.
 Require Import Stab Act Spec GF2 Gen_GateTable R8 B8 Dec Formats Counts DemFlat Tr CoinWord.
 Extraction Language OCaml.
 Set Extraction Optimize.
-Cd "/verif/coq".
 Extraction "sv.ml"
   Stab.check_record Stab.forms_of Stab.gmul Stab.ph Stab.anti Stab.bxor
   Spec.srun Spec.consistent Spec.check_record_ext Spec.deterministic_form Spec.coin_part
